@@ -308,3 +308,15 @@ def r9(ctx):
            f"external loop's timer callback and never reaches handleDisconnect (no on_error, no reconnect)", bad[0].raise_loc or idx.loc(idx.func(CHECK).node) if bad else "",
            {"path": path_text(bad[0])} if bad else None)
 
+
+@rule("R-C15-10", min_instances=3, title="a re-established connection is pinged again: fresh stop event, thread started once after connect")
+def r_sib_r_c15_10(ctx):
+    from .c16 import r5 as ping_thread_lifecycle
+    ping_thread_lifecycle(ctx)
+
+
+@rule("R-C15-11", min_instances=3, title="a close frame with any status the RFC allows (1000-1003, 1007-1011, 3000-4999) is a close frame, not a protocol error that would be taken for a lost connection")
+def r_sib_r_c15_11(ctx):
+    from .c05 import r3 as close_status_table
+    close_status_table(ctx)
+
